@@ -1170,11 +1170,11 @@ func main() {
 		add("absent", false, nil, nil, treeA)
 		add("absent", true, nil, nil, treeA)
 		add("overwrite-files", false, treeB, nil, treeB)
-		add("overwrite-dir", false, treeA, nil, treeA)
 		add("overwrite-dir-only", false, treeD, nil, treeD)
 		add("overwrite-dir", true, treeA, nil, treeA)
 		add("leftover-tmp", false, nil, treeC, treeA)
 		if c.Thor {
+			add("overwrite-dir", false, treeA, nil, treeA)
 			add("absent", false, nil, nil, treeC)
 			add("absent", true, nil, nil, treeC)
 			add("overwrite-dir", false, treeC, nil, treeB)
@@ -1182,7 +1182,7 @@ func main() {
 			add("leftover-tmp", true, nil, treeC, treeA)
 			add("overwrite+leftover", false, treeB, treeA, treeC)
 		}
-		nc := c.Scale(4, 40)
+		nc := c.Scale(2, 40)
 		for i := 0; i < nc; i++ {
 			r := c.Rng.Fork()
 			budget := 2 + r.Intn(5)
@@ -1209,7 +1209,7 @@ func main() {
 		}
 		results := make([]crashResult, len(jobs))
 		var wg sync.WaitGroup
-		sem := make(chan struct{}, 8)
+		sem := make(chan struct{}, 12)
 		for i := range jobs {
 			wg.Add(1)
 			go func(i int) {
